@@ -269,6 +269,14 @@ pub mod verif_faults {
     use std::sync::Mutex;
 
     static FAIL_WRITES_TO: Mutex<Option<String>> = Mutex::new(None);
+    static DELAY_WRITE_COMPLETIONS_MS: std::sync::atomic::AtomicU64 = std::sync::atomic::AtomicU64::new(0);
+
+    /// Non-zero: every page-write completion is held back by `ms` in the I/O worker and announced
+    /// on stderr (`verif-io-complete`) when it is delivered, so that an external tracer can order
+    /// completions against other system calls.
+    pub fn delay_write_completions(ms: u64) {
+        DELAY_WRITE_COMPLETIONS_MS.store(ms, std::sync::atomic::Ordering::SeqCst);
+    }
 
     /// `Some(suffix)`: fail page writes to files whose path ends with `suffix`; `None`: off.
     pub fn fail_writes_to(suffix: Option<&str>) {
@@ -280,6 +288,11 @@ pub mod verif_faults {
             IoKind::Read(..) => return result,
             IoKind::Write(fd, ..) | IoKind::WriteArc(fd, ..) | IoKind::WriteRaw(fd, ..) => fd,
         };
+        let delay = DELAY_WRITE_COMPLETIONS_MS.load(std::sync::atomic::Ordering::SeqCst);
+        if delay > 0 {
+            std::thread::sleep(std::time::Duration::from_millis(delay));
+            eprintln!("verif-io-complete");
+        }
         let guard = FAIL_WRITES_TO.lock().unwrap();
         let Some(suffix) = guard.as_ref() else { return result };
         match std::fs::read_link(format!("/proc/self/fd/{}", fd)) {
